@@ -120,7 +120,7 @@ class Ctx:
                 hit = self.known_hits.setdefault(k["key"], {"entry": k, "n": 0, "first": key})
                 hit["n"] += 1
                 return False
-        safe = "".join(c if c.isalnum() or c in "-_.=" else "_" for c in key)[:120]
+        safe = "".join(c if c.isalnum() or c in "-_.=" else "_" for c in key)[:110] + "_" + case_hash(key)[:8]
         d = os.path.join(VERIF, "replays", self.prop)
         os.makedirs(d, exist_ok=True)
         path = os.path.join(d, safe + ".json")
